@@ -9,6 +9,7 @@ import (
 	"math/rand/v2"
 	"os"
 	"path/filepath"
+	"runtime"
 	"sort"
 	"strconv"
 	"strings"
@@ -410,9 +411,16 @@ func (CrashScenario) Execute(sim *sched.Sim, ci interface{}, prop string, race b
 				cr.fl = nil
 				_, cr.safeOff = vlogWriteOffset(cr.dir)
 				if racer != nil {
-					// the next operation starts after the racing Create
-					for !racer.IsDone() {
+					// the next operation starts after the racing Create. (The
+					// racer may have been woken by the very write that woke
+					// this task - it waits for Init's pending commit before
+					// it reads -: park first, so that its state is looked at
+					// when everything has settled.)
+					for {
 						sim.Yield("crash.op", "wait-racer")
+						if racer.IsDone() {
+							break
+						}
 					}
 				}
 			case "rebuild":
@@ -441,7 +449,7 @@ func (CrashScenario) Execute(sim *sched.Sim, ci interface{}, prop string, race b
 			}
 			cr.db.Close()
 			cr.open(img)
-			cr.sim.PassThrough.Store(true)
+			live0 := beginFreeRun(cr.sim)
 			if err := cr.st.Init(cr.seedsCB); err != nil {
 				h.Violate("C12", "init-error", "", "Init after restart failed: "+err.Error())
 			} else {
@@ -458,7 +466,7 @@ func (CrashScenario) Execute(sim *sched.Sim, ci interface{}, prop string, race b
 				}
 			}
 			cr.qs.Flush()
-			cr.sim.PassThrough.Store(false)
+			endFreeRun(cr.sim, live0)
 			// what the restart procedure wrote (seeds, marker) is acknowledged
 			_, cr.safeOff = vlogWriteOffset(cr.dir)
 			cr.checkLive("after dirty restart", rebuilt)
@@ -486,9 +494,9 @@ func (CrashScenario) Execute(sim *sched.Sim, ci interface{}, prop string, race b
 	if !w.IsDone() {
 		h.Violate("C12", "workload-stuck", "", "workload did not finish: "+describeParked(sim))
 	} else {
-		cr.sim.PassThrough.Store(true)
+		live0 := beginFreeRun(cr.sim)
 		cr.qs.Flush()
-		cr.sim.PassThrough.Store(false)
+		endFreeRun(cr.sim, live0)
 		cr.image(root, "end of workload", false)
 	}
 	for _, p := range sim.Panics {
@@ -570,8 +578,8 @@ func recStr(r *idxRec) string {
 // of the bubble is durably blocked, so no write is in flight), reopens it and
 // checks it.
 func (cr *crashRun) image(root, where string, torn bool) {
-	cr.sim.PassThrough.Store(true)
-	defer cr.sim.PassThrough.Store(false)
+	live0 := beginFreeRun(cr.sim)
+	defer endFreeRun(cr.sim, live0)
 	img := filepath.Join(root, "img")
 	os.RemoveAll(img)
 	if err := copyDir(cr.dir, img); err != nil {
@@ -724,6 +732,25 @@ func (cr *crashRun) checkLive(where string, indexes bool) {
 var _ = bytes.Equal
 
 func init() { register(CrashScenario{}) }
+
+// beginFreeRun lets the library's goroutines run without the scheduler (an
+// image is checked, a restart procedure runs): yield points do not park.
+// endFreeRun hands control back once the task queue workers started in
+// between are gone - a worker that outlives the region would park at its next
+// yield point and appear to the scheduler as a task of the run, at a moment
+// that depends on real time.
+func beginFreeRun(sim *sched.Sim) int64 {
+	live0 := taskqueue.Live()
+	sim.PassThrough.Store(true)
+	return live0
+}
+
+func endFreeRun(sim *sched.Sim, live0 int64) {
+	for i := 0; taskqueue.Live() > live0 && i < 5000000; i++ {
+		runtime.Gosched()
+	}
+	sim.PassThrough.Store(false)
+}
 
 func either[T any](cond bool, a, b T) T {
 	if cond {
